@@ -406,7 +406,7 @@ class Helper(object):
 
 class Loop(object):
     def __init__(self, inv=(), variant=None, types=None, index=None, label=None, ghost_pre=None,
-                 ghost_step=None, modifies=()):
+                 ghost_step=None, modifies=(), ghost_begin=None):
         self.inv = list(inv)
         self.variant = variant
         self.types = dict(types or {})
@@ -415,6 +415,7 @@ class Loop(object):
         self.ghost_pre = ghost_pre or []    # statements (python source) run before the loop on ghost vars
         self.ghost_step = ghost_step or []  # ghost statements run at the end of each iteration
         self.modifies = tuple(modifies)     # names whose objects are changed by calls in the body (not visible syntactically)
+        self.ghost_begin = ghost_begin or []  # ghost statements run at the start of each iteration (snapshots)
 
 
 class Contract(object):
@@ -497,6 +498,7 @@ class Engine(object):
         self.paths = 0
         self.feas_timeout = feas_timeout
         self._solver = z3.Solver()
+        self._feas_timeout = feas_timeout
         self._solver.set('timeout', feas_timeout)
         self.returns_seen = set()
         self.raise_seen = set()
@@ -512,9 +514,13 @@ class Engine(object):
             if self.paths > self.MAX_PATHS:
                 raise Unsupported('more than %d paths' % self.MAX_PATHS)
             self.trail = list(prefix)
-            self.pos = 0
+            self.replay_len = len(prefix)     # decisions forced by the prefix: what is recorded before they are used up
+            self.pos = 0                      # was recorded by the path this one forked from (deterministic re-execution)
             self.alts = []
             self.pc = []
+            self._solver.reset()
+            self._solver.set('timeout', self._feas_timeout)
+            self._asserted = 0
             self.path_id = ''.join('T' if d else 'F' for d in prefix)
             self.loop_ordinal = {}
             try:
@@ -525,11 +531,19 @@ class Engine(object):
                 stack.append(a)
 
     def feasible(self, extra):
+        # the path condition only grows along a path: it is asserted incrementally, the question is pushed on top
         s = self._solver
+        n = getattr(self, '_asserted', 0)
+        if n is None or n > len(self.pc):      # the path condition was cut back (local scopes of the comprehension model)
+            s.reset()
+            s.set('timeout', self._feas_timeout)
+            n = 0
+        while n < len(self.pc):
+            s.add(self.pc[n])
+            n += 1
+        self._asserted = n
         s.push()
         try:
-            for p in self.pc:
-                s.add(p)
             s.add(extra)
             r = s.check()
         finally:
@@ -579,11 +593,13 @@ class Engine(object):
         """Record obligation pc => cond, then continue under cond."""
         if isinstance(cond, bool):
             cond = z3.BoolVal(cond)
-        self.obligations.append(Obligation(name, list(self.pc), cond, kind, self.path_id, line))
+        if self.pos >= getattr(self, 'replay_len', 0):
+            self.obligations.append(Obligation(name, list(self.pc), cond, kind, self.path_id, line))
         self.pc.append(cond)
 
     def cover(self, name):
-        self.covers.append((name, list(self.pc)))
+        if self.pos >= getattr(self, 'replay_len', 0):
+            self.covers.append((name, list(self.pc)))
 
     # ------------------------------------------------------------------ values
     def coerce(self, v, ty):
@@ -890,6 +906,8 @@ class Engine(object):
             raise Unsupported('assignment target %s' % type(tgt).__name__)
 
     def list_contents(self, v):
+        if isinstance(v, PObj) and isinstance(v.fields.get('__iter__'), PExt):
+            return self.iter_contents(v)
         if isinstance(v, PList):
             return list(v.val) if isinstance(v.val, list) else v.val
         if isinstance(v, (list, tuple)):
@@ -1090,6 +1108,13 @@ class Engine(object):
             if not frame.has(name) and name not in L.types:
                 continue
             ty = L.types.get(name)
+            if ty == 'same_kind':
+                if not frame.has(name):
+                    continue
+                cur = frame.lookup(name)
+                if cur is None or cur is NotImplemented:
+                    continue                 # None stays None in this loop (its type is part of the case split)
+                ty = type_of_value(cur)
             if ty is None:
                 cur = frame.lookup(name)
                 if isinstance(cur, PList):
@@ -1146,7 +1171,7 @@ class Engine(object):
         self.check_inv(L, k, frame, 'entry')
         assigned, mutated = self.written_names(s.body)
         for g in L.ghost_step:
-            a2, m2 = self.written_names(ast.parse(g).body)
+            a2, m2 = self.written_names(ast.parse(g.strip()).body)
             assigned |= a2
             mutated |= m2
         mutated |= set(L.modifies)
@@ -1217,8 +1242,8 @@ class Engine(object):
         frame.store(idx, 0)
         self.check_inv(L, k, frame, 'entry')
         assigned, mutated = self.written_names(s.body)
-        for g in L.ghost_step:
-            a2, m2 = self.written_names(ast.parse(g).body)
+        for g in list(L.ghost_step) + list(L.ghost_begin):
+            a2, m2 = self.written_names(ast.parse(g.strip()).body)
             assigned |= a2
             mutated |= m2
         for x in ast.walk(s.target):
@@ -1235,6 +1260,8 @@ class Engine(object):
         if self.decide(kv.t < n):
             self.cover('%s.loop%d.body' % (self.c.funcname, k))
             self.assign(s.target, self.seq_at(seq, kv.t), frame)
+            for g in L.ghost_begin:
+                self.exec_ghost(g, frame)
             self.use_lemmas('loop%d.body' % k, frame)
             try:
                 self.exec_block(s.body, frame)
@@ -1264,6 +1291,8 @@ class Engine(object):
             return list(it)
         if isinstance(it, (SSeq, SStr, SEnc, SEncMap, PAbsSeq)):
             return it
+        if isinstance(it, PObj) and isinstance(it.fields.get('__iter__'), PExt):
+            return self.iter_contents(self.call(it.fields['__iter__'], [], {}, None))
         if isinstance(it, SOpaque) and callable(self.c.env.get('__iter_opaque__')):
             return self.c.env['__iter_opaque__'](self, it)
         if isinstance(it, PDict):
@@ -1843,6 +1872,11 @@ class Engine(object):
             obj = PList(obj.items) if isinstance(obj.items, list) else obj.items
         if isinstance(obj, PObj) and isinstance(obj.fields.get('__getitem__'), PExt):
             return self.call(obj.fields['__getitem__'], [idx], {}, node)
+        if isinstance(obj, PAbsSeq):
+            ti = Int.unwrap(idx)
+            if not getattr(self, 'in_spec', False):
+                self.oblige('%s.index@%s' % (self.c.funcname, self.rel(node)), z3.And(ti >= -obj.n, ti < obj.n), 'safety')
+            return self.seq_at(obj, z3.simplify(z3.If(ti >= 0, ti, ti + obj.n)))
         if isinstance(obj, PText):
             ti = Int.unwrap(idx)
             inb = z3.And(ti >= -obj.n, ti < obj.n)
@@ -2052,6 +2086,9 @@ class Engine(object):
                 return v
             if name == '__class__':
                 return obj.cls
+            hook = obj.fields.get('__getattr_hook__')
+            if callable(hook):
+                return hook(self, obj, name)   # class with __getattr__: modelled by its (separately verified) contract
             cls = obj.cls
             if isinstance(cls, type) and hasattr(cls, name):
                 a = inspect.getattr_static(cls, name)
@@ -2091,6 +2128,10 @@ class Engine(object):
 
     def setattr(self, obj, name, v):
         if isinstance(obj, PObj):
+            hook = obj.fields.get('__setattr_hook__')
+            if callable(hook) and name not in obj.fields:
+                hook(self, obj, name, v)       # class with __setattr__: modelled by its (separately verified) contract
+                return
             obj.fields[name] = v
             return
         raise Unsupported('attribute store on %r (not an object owned by the function)' % (obj,))
@@ -2168,9 +2209,11 @@ class Engine(object):
             self.oblige('%s.flatmap_elem@%s' % (self.c.funcname, self.rel(e)), v.t == elem(xe),
                         'model-side-condition')
             del self.pc[mark:]
+            self._asserted = None
             return PGen(SEncMap(whole(seq.t), v.alpha))
         self.oblige('%s.map_elem@%s' % (self.c.funcname, self.rel(e)), v.t == z3.Unit(xe), 'model-side-condition')
         del self.pc[mark:]
+        self._asserted = None
         return PGen(SEncMap(seq.t, v.alpha))
 
     # ------------------------------------------------------------------ calls
@@ -2557,6 +2600,8 @@ class Engine(object):
         raise Unsupported('call of %r (no contract, no model)' % (fn,))
 
     def builtin_len(self, v):
+        if isinstance(v, PObj) and isinstance(v.fields.get('__len__'), PExt):
+            return self.call(v.fields['__len__'], [], {}, None)
         if isinstance(v, PText):
             return SInt(v.n)
         if isinstance(v, SChar):
